@@ -1,9 +1,86 @@
-(* C01, part c01stream - statements only (proofs in C02_Prims/). *)
+(* C01, part c01stream - statements only (proofs in C02_Prims/): stream Write/Read helper pairs round-trip through
+   ANY reader however it splits its reads (every fault-free script of Give n / Half events), and the
+   Serializer/Deserializer primitive pairs round-trip. Model = code after 93eaa3d (D01c) and 251eda6 (D02c). *)
 From Coq Require Import ZArith NArith List.
-From Verif.C02_Prims Require Import Model Stream ProofsLE.
+From Verif.C02_Prims Require Import Model Stream ProofsLE ProofsStream ProofsPairs.
 Import ListNotations.
 
-Theorem C01_le_num_roundtrip : forall k v, in_range k v -> num_of_bytes k (bytes_of_num k v) = v.
+(* Little-endian encode/decode are inverse for every width, both ways. *)
+Theorem C01_le_roundtrip : forall n v, (v < 2 ^ (8 * N.of_nat n))%N -> le_dec (le_enc n v) = v.
+Proof. exact le_dec_enc. Qed.
+Theorem C01_le_roundtrip_bytes : forall bs, Forall (fun b => (b < 256)%N) bs -> le_enc (length bs) (le_dec bs) = bs.
+Proof. exact le_enc_dec. Qed.
+Theorem C01_num_roundtrip : forall k v, in_range k v -> num_of_bytes k (bytes_of_num k v) = v.
 Proof. exact num_roundtrip. Qed.
+Theorem C01_num_roundtrip_bytes : forall k bs,
+  Forall (fun b => (b < 256)%N) bs -> length bs = nk_size k -> bytes_of_num k (num_of_bytes k bs) = bs.
+Proof. exact num_bytes_roundtrip. Qed.
 
-Print Assumptions C01_le_num_roundtrip.
+(* Chunk independence: with enough data, io.ReadFull delivers exactly the next [want] bytes under EVERY fault-free
+   script (induction over the script). *)
+Theorem C01_read_full_all_chunkings : forall es want d, fault_free es -> (want <= length d)%nat ->
+  exists es', fault_free es' /\ read_full want d es = (firstn want d, mkR (skipn want d) es', RNil).
+Proof. exact read_full_ok. Qed.
+
+(* stream.Write[T] / stream.Read[T] for every allowed T (8 integer kinds, bool, [32] [36] [38]byte) *)
+Theorem C01_stream_roundtrip_T : forall t v rest es, typed t v -> fault_free es ->
+  exists es' c, fault_free es' /\ read_t t (mkR (tk_encode t v ++ rest) es) = (Ok v, mkR rest es', c).
+Proof. exact read_t_roundtrip. Qed.
+
+(* WriteBytes / ReadBytes (any length, across the 4 KiB chunks of the repaired ReadBytes) *)
+Theorem C01_stream_roundtrip_bytes : forall bs rest es, fault_free es ->
+  exists es' c, fault_free es' /\
+    read_bytes (Z.of_nat (length bs)) (mkR (bs ++ rest) es) = (Ok bs, mkR rest es', c).
+Proof. exact read_bytes_roundtrip. Qed.
+
+(* WriteBytesWithSize / ReadBytesWithSize for every length-prefix width (guard: the write side accepted the length) *)
+Theorem C01_stream_roundtrip_bytes_with_size : forall l bs w rest es,
+  (Z.of_nat (length bs) <= MaxInt64)%Z -> with_size l bs = Ok w -> fault_free es ->
+  exists es' c, fault_free es' /\ read_bytes_with_size l (mkR (w ++ rest) es) = (Ok bs, mkR rest es', c).
+Proof. exact read_bytes_with_size_roundtrip. Qed.
+
+(* Serializer -> Deserializer pairs *)
+Theorem C01_des_roundtrip_num : forall k v rest o, in_range k v ->
+  dstep (mkD (bytes_of_num k v ++ rest) o None) (DNum k) = SOk (mkD rest (o + nk_size k) None) (ONum v) 0.
+Proof. exact des_num_roundtrip. Qed.
+Theorem C01_des_roundtrip_bool : forall (b : bool) rest o,
+  dstep (mkD ((if b then 1%N else 0%N) :: rest) o None) DBool = SOk (mkD rest (o + 1) None) (OBool b) 0.
+Proof. exact des_bool_roundtrip. Qed.
+Theorem C01_des_roundtrip_bytes : forall bs rest o,
+  dstep (mkD (bs ++ rest) o None) (DBytes (length bs)) =
+  SOk (mkD rest (o + length bs) None) (OBytes bs) (N.of_nat (length bs)).
+Proof. exact des_bytes_roundtrip. Qed.
+Theorem C01_des_roundtrip_var_and_string : forall l bs mn mx p rest o,
+  (Z.of_nat (length bs) <= MaxInt64)%Z ->
+  slice_length_bytes l (Z.of_nat (length bs)) = Ok p ->
+  len_check mn mx (Z.of_nat (length bs)) = None ->
+  exists c,
+  dstep (mkD (p ++ bs ++ rest) o None) (DVar l mn mx) = SOk (mkD rest (o + lpt_size l + length bs) None) (OBytes bs) c /\
+  dstep (mkD (p ++ bs ++ rest) o None) (DString l mn mx) = SOk (mkD rest (o + lpt_size l + length bs) None) (OBytes bs) c.
+Proof. exact des_var_roundtrip. Qed.
+
+(* non-vacuity of the guards *)
+Example C01_guards_inhabited :
+  fault_free [Give 1; Half; Give 3; Half] /\ typed (TNum I16) (SVNum (-32768)) /\ typed (TArr 36) (SVBytes (repeat 7%N 36)) /\
+  with_size L16 [1; 2; 3]%N = Ok [3; 0; 1; 2; 3]%N /\ len_check 1 5 3 = None.
+Proof. repeat split; try (repeat constructor; discriminate); vm_compute; auto; discriminate. Qed.
+
+(* D01c on the pinned code: a one-byte-per-Read reader broke ReadBytes; the repaired code reads the 11 bytes. *)
+Theorem C01_stream_refuted_pinned :
+  fst (read_bytes_pinned 11 (mkR hello (repeat (Give 1) 19))) = Err EOther /\
+  fst (fst (read_bytes 11 (mkR hello (repeat (Give 1) 19)))) = Ok hello.
+Proof. exact refuted_pinned_single_read. Qed.
+
+Print Assumptions C01_le_roundtrip.
+Print Assumptions C01_le_roundtrip_bytes.
+Print Assumptions C01_num_roundtrip.
+Print Assumptions C01_num_roundtrip_bytes.
+Print Assumptions C01_read_full_all_chunkings.
+Print Assumptions C01_stream_roundtrip_T.
+Print Assumptions C01_stream_roundtrip_bytes.
+Print Assumptions C01_stream_roundtrip_bytes_with_size.
+Print Assumptions C01_des_roundtrip_num.
+Print Assumptions C01_des_roundtrip_bool.
+Print Assumptions C01_des_roundtrip_bytes.
+Print Assumptions C01_des_roundtrip_var_and_string.
+Print Assumptions C01_stream_refuted_pinned.
